@@ -189,7 +189,11 @@ func (db *MultiBucketBackend) getBucketWithFilePrefixLocked(bucket string, prefi
 		}
 
 		if entry.IsDir() {
-			response.AddPrefix(objectPath + "/")
+			// A directory is the common prefix of the keys stored below it; one
+			// that holds none (a delete could not remove it) is nobody's prefix:
+			if holdsObject(db.bucketFs, filepath.FromSlash(path.Join(bucketPath, object))) {
+				response.AddPrefix(objectPath + "/")
+			}
 
 		} else {
 			size := entry.Size()
